@@ -13,7 +13,7 @@ AUDIT_INPUT_FILES = True   # after every case the driver verifies that the synth
 PROPERTY = "C06"
 LEVEL = "exploration"
 CLAIM = {
-    "text": "Exploration by runtime monitoring: collapse, bandpass, read_chan, dedisperse and compute_stats(+basic) of the real FilReader are run for every gulp 1..100 on a 97-sample file at depths 1,2,4,8,32 and for seeded random (gulp,start,nsamps,dm) on single and multi-file inputs; each result is compared with the float64/integer definition evaluated on the in-memory samples [start,start+nsamps) (bit-exact for sums on integer-valued data, 1 ulp for the bandpass division, 1e-4 for moments), with the gulp=infinity result (bit-for-bit), and a kernel-seam spy checks that the output index intervals of successive extract_tim/dedisperse calls tile the output exactly once. Thorough repeats under NUMBA_BOUNDSCHECK=1. After every case the synthesised input files are re-hashed (a reduction may not change its input). Rounds 7-8 added: the same band and DM at another sampling time handled earlier by the same process, and reductions that continue on one reader exactly where a full-block dedispersion stopped.",
+    "text": "Exploration by runtime monitoring: collapse, bandpass, read_chan, dedisperse and compute_stats(+basic) of the real FilReader are run for every gulp 1..100 on a 97-sample file at depths 1,2,4,8,32 and for seeded random (gulp,start,nsamps,dm) on single and multi-file inputs; each result is compared with the float64/integer definition evaluated on the in-memory samples [start,start+nsamps) (bit-exact for sums on integer-valued data, 1 ulp for the bandpass division, 1e-4 for moments), with the gulp=infinity result (bit-for-bit), and a kernel-seam spy checks that the output index intervals of successive extract_tim/dedisperse calls tile the output exactly once. Thorough repeats under NUMBA_BOUNDSCHECK=1. After every case the synthesised input files are re-hashed (a reduction may not change its input). Rounds 7-8 added: the same band and DM at another sampling time handled earlier by the same process, and reductions that continue on one reader exactly where a full-block dedispersion stopped. Round 9 added: 1032/2048 bright 8-bit channels, dedispersion with a caller-supplied allocator whose memory is not zeroed.",
     "design_ref": "DESIGN.md section 3 (C06), 2.1, 2.5",
     "note": "Trusted: numpy float64 arithmetic, vlib/sigfile.py. Delays come from the library's own get_dmdelays (the law itself is C09); only DMs with all delays >= 0 and maxdelay < nsamps are in the domain. Integer-valued data keep float32 sums exact.",
     "technique": "runtime monitoring: differential oracle (definition on in-memory samples) + gulp-independence check + exactly-once tiling check on kernel call arguments",
